@@ -135,6 +135,8 @@ pub struct Run {
     pub transitions: AtomicU64,
     pub traces: AtomicU64,
     nontriv: Vec<Mutex<HashSet<u64>>>,
+    /// non-trivial cases that are distinct by construction (each enumerated exactly once), counted not hashed
+    pub nontriv_counted: AtomicU64,
     samples: Mutex<Vec<Value>>,
     viols: Mutex<BTreeMap<String, Bucket>>,
     kf_hits: Mutex<BTreeMap<String, (u64, Option<Violation>)>>,
@@ -167,6 +169,7 @@ impl Run {
             transitions: AtomicU64::new(0),
             traces: AtomicU64::new(0),
             nontriv: (0..64).map(|_| Mutex::new(HashSet::new())).collect(),
+            nontriv_counted: AtomicU64::new(0),
             samples: Mutex::new(vec![]),
             viols: Mutex::new(BTreeMap::new()),
             kf_hits: Mutex::new(BTreeMap::new()),
@@ -258,7 +261,7 @@ impl Run {
         let wall = self.t0.elapsed().as_secs_f64();
         let root = root();
         let machinery = self.machinery.lock().unwrap().clone();
-        let nontriv: usize = self.nontriv.iter().map(|s| s.lock().unwrap().len()).sum();
+        let nontriv: usize = self.nontriv.iter().map(|s| s.lock().unwrap().len()).sum::<usize>() + self.nontriv_counted.load(Ordering::Relaxed) as usize;
         let viols = self.viols.lock().unwrap();
         let total_viol: u64 = viols.values().map(|b| b.count).sum();
         let kf_hits = self.kf_hits.lock().unwrap();
